@@ -5,7 +5,7 @@ Programs are ASCII-only, so character offsets are byte offsets.
 from .prog import ty_src, UNIT
 
 ATOMIC = ("var", "int", "bool", "str", "unit", "call", "callv", "mcall", "field", "list", "tuple", "dict", "some", "none",
-          "ok", "err", "variant", "structlit", "throw")
+          "ok", "err", "variant", "structlit", "throw", "paren")
 
 
 def esc(s):
@@ -60,6 +60,10 @@ class Printer:
             self.w("Unit")
         elif k == "var":
             self.name(e["name"], e["bid"], "use")
+        elif k == "paren":          # explicit (redundant) parentheses, only produced by monitors that ask for them
+            self.w("(")
+            self.expr(e["e"])
+            self.w(")")
         elif k == "bin":
             self.paren_if(e["l"], e["l"]["k"] not in ATOMIC)
             self.w(" %s " % e["op"])
@@ -161,7 +165,8 @@ class Printer:
                     self.w(", ")
                 self.name(n, b, "def", "lparam")
                 self.w(": " + ty_src(t))
-            self.w("): " + ty_src(e["ret"]) + " ")
+            # "ret_ann": False -> no return type written (only monitors that ask for it)
+            self.w("): " + ty_src(e["ret"]) + " " if e.get("ret_ann", True) else ") ")
             self.block(e["body"])
         elif k == "throw":
             self.w("throw(")
